@@ -495,6 +495,8 @@ class ProdParser:
         prod = None
         # flag if default S handling should be done
         defaultS = True
+        # for checkS: S COMMENT S counts as the one S it is without the comment
+        lastS = commentAfterS = False
 
         stopIfNoMoreMatch = False
 
@@ -512,6 +514,15 @@ class ProdParser:
             # print debug, token, stopIfNoMoreMatch
 
             type_, val, line, col = token
+
+            if checkS:
+                if type_ == self.types.COMMENT:
+                    commentAfterS = lastS
+                elif type_ == self.types.S and commentAfterS:
+                    continue
+                else:
+                    lastS = type_ == self.types.S
+                    commentAfterS = False
 
             # default productions
             if type_ == self.types.COMMENT:
